@@ -67,8 +67,9 @@ class SchedLock(object):
             if not blocking:
                 return self._real.acquire(False)
             return self._real.acquire(True, timeout)
-        s.blocking_op(lambda: self._real.acquire(False), "lock", self)
-        return True
+        # a timed acquire is modelled logically: it expires only when no registered thread can otherwise make progress
+        timed = timeout is not None and timeout >= 0
+        return s.blocking_op(lambda: self._real.acquire(False), "lock", self, timed=timed)
 
     def acquire(self, blocking=True, timeout=-1):
         me = _thread.get_ident()
